@@ -267,6 +267,11 @@ func (m *Machine) callValue(s *State, f *Frame, x *ssa.Call, cc *ssa.CallCommon,
 	case *ssa.Function:
 		name := callee.String()
 		if strings.HasSuffix(name, ").ReturnToVTPool") || strings.HasSuffix(name, ").ResetVT") {
+			if p, ok := args[0].(Ptr); ok && p.obj != 0 {
+				if pt, ok := callee.Signature.Recv().Type().(*types.Pointer); ok {
+					s.store(p, m.zero(pt.Elem()))
+				}
+			}
 			return nil
 		}
 		if strings.HasSuffix(name, ").UnmarshalVT") {
@@ -274,16 +279,20 @@ func (m *Machine) callValue(s *State, f *Frame, x *ssa.Call, cc *ssa.CallCommon,
 			want := callee.Signature.Recv().Type().String()
 			if sl.obj != 0 {
 				if bx, ok := s.heap[sl.obj].v.(BoxV); ok && bx.typ == want {
-					s.store(args[0].(Ptr), bx.v)
+					// vtprotobuf does NOT reset the receiver: the decoded message is merged into it
+					cur, ok1 := s.load(args[0].(Ptr)).(StructV)
+					nv, ok2 := bx.v.(StructV)
+					if pt, ok := callee.Signature.Recv().Type().(*types.Pointer); ok && ok1 && ok2 {
+						s.store(args[0].(Ptr), m.pbMergeStruct(s, pt.Elem(), cur, nv))
+					} else {
+						s.store(args[0].(Ptr), bx.v)
+					}
 					setRes(IfaceV{})
 					return nil
 				}
 			}
 			if sl.len == 0 {
-				// an empty byte string is a valid encoding of the all-default message
-				if pt, ok := callee.Signature.Recv().Type().(*types.Pointer); ok {
-					s.store(args[0].(Ptr), m.zero(pt.Elem()))
-				}
+				// an empty byte string is a valid encoding of the all-default message: merging it changes nothing
 				setRes(IfaceV{})
 				return nil
 			}
@@ -485,6 +494,11 @@ func (m *Machine) intrinsic(s *State, f *Frame, x *ssa.Call, name string, callee
 		f.env[x] = Ptr{obj: s.alloc(m.zero(et))}
 		return nil, true
 	case strings.HasSuffix(name, ").ReturnToVTPool") || strings.HasSuffix(name, ").ResetVT"):
+		if p, ok := args[0].(Ptr); ok && p.obj != 0 {
+			if pt, ok := callee.Signature.Recv().Type().(*types.Pointer); ok {
+				s.store(p, m.zero(pt.Elem()))
+			}
+		}
 		return nil, true
 	case name == "(github.com/edsrzf/mmap-go.MMap).Flush" || name == "(*github.com/edsrzf/mmap-go.MMap).Unmap":
 		m.stubs["mmap Flush/Unmap: no-op returning nil (durability = the synced-prefix contract)"]++
